@@ -13,7 +13,7 @@ F = [
  ("filterCheckServiceNodes","nodes","csn","structs.CheckServiceNode", "x.Node != nil && x.Service != nil && f.authorizer.NodeRead(x.Node.Node, &acl.AuthorizerContext{Peer: x.Service.PeerName}) == acl.Allow && f.authorizer.ServiceRead(x.Service.Service, &acl.AuthorizerContext{Peer: x.Service.PeerName}) == acl.Allow","A", False),
  ("filterServiceList","services","ret","structs.ServiceName", f"f.authorizer.ServiceRead(x.Name, {CTX0}) == acl.Allow","B", False),
  ("filterGatewayServices","mappings","ret","*structs.GatewayService", f"f.authorizer.ServiceRead(x.Service.Name, {CTX0}) == acl.Allow","B", True),
- ("filterIntentions","ixns","ret","*structs.Intention", "x.CanRead(f.authorizer)","B", True),
+ ("filterIntentions","ixns","ret","*structs.Intention", f"(x.SourceName != \"\" && x.SourcePeer == \"\" && f.authorizer.IntentionRead(x.SourceName, {CTX0}) == acl.Allow) || (x.DestinationName != \"\" && f.authorizer.IntentionRead(x.DestinationName, {CTX0}) == acl.Allow)","B", True),
 ]
 out=[]
 w=out.append
@@ -35,6 +35,7 @@ for name,param,loc,et,pred,shape,isptr in F:
     w(f"//@ ensures[only-input-elements] forall j int :: 0 <= j && j < len(*{param}) ==> exists o int :: 0 <= o && o < len({IN}) && eq((*{param})[j], {IN}[o])")
     w(f"//@ ensures[nothing-readable-dropped] forall o int :: 0 <= o && o < len({IN}) && {p}(f, {IN}[o]) ==> exists j int :: 0 <= j && j < len(*{param}) && eq((*{param})[j], {IN}[o])")
     w(f"//@ ensures[flag-iff-removed] removed <==> len(*{param}) < len({IN})")
+    w(f"//@ ensures[never-longer] len(*{param}) <= len({IN})")
     w(f"//@ modifies *{param}")
     if shape=="A":
         s=loc; K=f"i + len({IN}) - len({s})"
